@@ -299,29 +299,47 @@ def _index_var(expr, binds, depth=0):
 
 
 def _coef_sign(block):
-    """sign of the constant coefficient vector inside a selector matrix constructor:
-    -np.ones(n) / np.ones(n) / np.full(n, c) / c * np.ones(n) / [c] * n"""
+    """sign of a constant coefficient vector, composed from its construction:
+    np.ones(n), np.full(n, c), np.array([c] * n), [c] * n, np.repeat(c, n), -v, v * c, c * v, v / c"""
     from .common import const_num
-    for x in ast.walk(block):
-        if isinstance(x, ast.UnaryOp) and isinstance(x.op, ast.USub) and isinstance(x.operand, ast.Call) and \
-                call_name(x.operand) in ('np.ones', 'numpy.ones'):
-            return -1
-    for x in ast.walk(block):
-        if isinstance(x, ast.Call) and call_name(x) in ('np.full', 'numpy.full') and len(x.args) >= 2:
-            k = const_num(x.args[1])
-            if k:
-                return 1 if k > 0 else -1
-        if isinstance(x, ast.BinOp) and isinstance(x.op, ast.Mult):
-            for a, b_ in ((x.left, x.right), (x.right, x.left)):
-                k = const_num(a)
-                if k and isinstance(b_, ast.Call) and call_name(b_) in ('np.ones', 'numpy.ones'):
-                    return 1 if k > 0 else -1
-                if k is None and isinstance(a, ast.List) and len(a.elts) == 1 and const_num(a.elts[0]):
-                    return 1 if const_num(a.elts[0]) > 0 else -1
-    for x in ast.walk(block):
-        if isinstance(x, ast.Call) and call_name(x) in ('np.ones', 'numpy.ones'):
-            return 1
-    return None
+
+    def sg(e):
+        k = const_num(e)
+        if k is not None:
+            return None if k == 0 else (1 if k > 0 else -1)
+        if isinstance(e, ast.UnaryOp) and isinstance(e.op, ast.USub):
+            r = sg(e.operand)
+            return None if r is None else -r
+        if isinstance(e, ast.UnaryOp) and isinstance(e.op, ast.UAdd):
+            return sg(e.operand)
+        if isinstance(e, (ast.List, ast.Tuple)):
+            rs = {sg(x) for x in e.elts}
+            return rs.pop() if len(rs) == 1 else None
+        if isinstance(e, ast.Call):
+            cn = call_name(e)
+            if cn in ('np.ones', 'numpy.ones', 'np.ones_like', 'numpy.ones_like'):
+                return 1
+            if cn in ('np.full', 'numpy.full') and len(e.args) >= 2:
+                return sg(e.args[1])
+            if cn in ('np.array', 'numpy.array', 'np.asarray', 'numpy.asarray', 'np.repeat', 'numpy.repeat',
+                      'np.tile', 'numpy.tile', 'np.negative', 'numpy.negative') and e.args:
+                r = sg(e.args[0])
+                if r is not None and cn.endswith('negative'):
+                    r = -r
+                return r
+            return None
+        if isinstance(e, ast.BinOp) and isinstance(e.op, ast.Mult):
+            # [c] * n: repetition of a list (n a count); otherwise a product of a vector and a scalar
+            for a, b_ in ((e.left, e.right), (e.right, e.left)):
+                if isinstance(a, (ast.List, ast.Tuple)):
+                    return sg(a)
+            x, y = sg(e.left), sg(e.right)
+            return None if x is None or y is None else x * y
+        if isinstance(e, ast.BinOp) and isinstance(e.op, ast.Div):
+            x, y = sg(e.left), sg(e.right)
+            return None if x is None or y is None else x * y
+        return None
+    return sg(block)
 
 
 def _ecos_blocks(repo, res):
@@ -396,7 +414,18 @@ def _ecos_blocks(repo, res):
     sign_ok = True
     detail = []
     for b, e in zip(gblocks[1:], h_elts[1:len(gblocks)]):
-        sg = _coef_sign(ex(binds[b]))
+        blk = ex(binds[b])
+        flip_ = 1
+        while isinstance(blk, ast.UnaryOp) and isinstance(blk.op, ast.USub):
+            flip_, blk = -flip_, blk.operand
+        data = blk
+        if isinstance(blk, ast.Call) and call_name(blk).endswith(('csr_matrix', 'csc_matrix', 'coo_matrix')) and blk.args:
+            data = blk.args[0]
+            if isinstance(data, (ast.Tuple, ast.List)) and data.elts:
+                data = data.elts[0]
+        sg = _coef_sign(ex(data))
+        if sg is not None:
+            sg *= flip_
         if sg is None:
             raise AnalysisError('eco_solver.solve: sign of the coefficients of block %s (`%s`) not recognised'
                                 % (b, ntext(binds[b])[:50]))
